@@ -24,7 +24,11 @@ all 729 points.
 """
 from __future__ import annotations
 
+import gc
 import itertools
+import os
+import sys
+import time
 from array import array
 
 from mc.stats import Stats
@@ -33,7 +37,6 @@ from mc.pool import pmap
 # ----------------------------------------------------------------------------- bounded space
 LO, HI = -4, 4
 RNG = tuple(range(LO, HI + 1))
-N1 = len(RNG)
 PTS = [(a, b, c) for a in RNG for b in RNG for c in RNG]          # (d0, d1, s0)
 NPTS = len(PTS)
 INTS = tuple(range(-2, 4))
@@ -362,13 +365,13 @@ def _pp_bad(st: Stats, e, ref):
 
 
 def check_print_parse(st: Stats, batch) -> None:
-    """batch: list of (raw, expr, ref).  One attribute with all results; individual fallback on any problem."""
+    """batch: list of (raw thunk, expr, ref).  One attribute with all results; individual fallback on any problem."""
     if not batch:
         return
     kind, res = _roundtrip(st, [b[1] for b in batch])
     if kind == "ok":
         ok = True
-        for (raw, e, ref), p in zip(batch, res):
+        for (_, e, ref), p in zip(batch, res):
             got = lib_vec(st, p)
             st.evaluations += NPTS
             if got != ref:
@@ -377,7 +380,7 @@ def check_print_parse(st: Stats, batch) -> None:
                 st.outcomes["print-parse:" + ("identical" if p == e else "restructured")] += 1
         if ok:
             return
-    for raw, e, ref in batch:
+    for raw_thunk, e, ref in batch:
         bad = _pp_bad(st, e, ref)
         if bad is None:
             continue
@@ -392,6 +395,7 @@ def check_print_parse(st: Stats, batch) -> None:
             if b is not None:
                 culprit, cbad = sub, b
                 break
+        raw = raw_thunk()
         st.violate(f"C26|print-parse|{shape(culprit)}|{cbad[0]}",
                    f"printing and re-parsing {culprit} does not preserve its value ({cbad[0]})",
                    {"check": "print-parse", "tree": tolist(raw), "pretty": pretty(raw), "built": str(e),
@@ -400,18 +404,52 @@ def check_print_parse(st: Stats, batch) -> None:
 
 # ----------------------------------------------------------------------------- generator tree
 class State:
-    __slots__ = ("raw", "expr", "vec", "const", "depth")
+    """A distinct built library expression together with the raw tree (k, a, b) that first reached it.
+    a / b are States, python ints (int operand form) or None."""
+    __slots__ = ("k", "a", "b", "expr", "depth", "vec", "const", "bad")
 
-    def __init__(self, raw, expr, vec, depth):
-        self.raw = raw
-        self.expr = expr
-        self.vec = vec
-        self.depth = depth
-        self.const = vec[0] if raw_vars(raw) == 0 else None     # closed tree: its (single) value
+    def __init__(self, k, a, b, expr, depth):
+        self.k, self.a, self.b, self.expr, self.depth = k, a, b, expr, depth
+        self.vec = None
+        self.bad = False
+        if k in ("d", "s"):
+            self.const = None
+        elif k == "c":
+            self.const = a
+        else:                                   # closed tree: its single value (reference semantics)
+            ca = a if isinstance(a, int) else a.const
+            cb = 0 if b is None else (b if isinstance(b, int) else b.const)
+            if ca is None or cb is None:
+                self.const = None
+            else:
+                self.const = -ca if k == "neg" else SOP[k](ca, cb)
 
 
-def int_operand(v: int):
-    return (("i", v), v, [v] * NPTS)
+def raw_of(x):
+    if isinstance(x, int):
+        return ("i", x)
+    if x.k in ("d", "s", "c"):
+        return (x.k, x.a)
+    if x.k == "neg":
+        return ("neg", raw_of(x.a))
+    return (x.k, raw_of(x.a), raw_of(x.b))
+
+
+def vec_of(x):
+    if x is None:
+        return None
+    if isinstance(x, int):
+        return [x] * NPTS
+    if x.vec is None:
+        if x.k in ("d", "s", "c"):
+            x.vec = ref_vec_leaf((x.k, x.a))
+        else:
+            x.vec = ref_vec_op(x.k, vec_of(x.a), vec_of(x.b))
+    return x.vec
+
+
+def expr_of(x):
+    return x if (x is None or isinstance(x, int)) else x.expr
 
 
 UNARY_ALL = tuple(
@@ -421,192 +459,252 @@ UNARY_ALL = tuple(
     + [("mul", v, "R") for v in INTS] + [("mul", v, "L") for v in INTS]
     + [(k, v, "R") for k in ("fdiv", "cdiv", "mod") for v in DIVS]
 )
+# restricted operator sets for the deepest levels: all div/mod forms by 2..4 plus one representative of neg/mul/add
+_DIVMOD = {(k, v, "R") for k in ("fdiv", "cdiv", "mod") for v in (2, 3, 4)} | {("neg", None, None), ("mul", 2, "R"), ("add", 2, "L")}
+UNARY_DIVMOD = tuple(o for o in UNARY_ALL if o in _DIVMOD)
+_DM8 = {("fdiv", 2, "R"), ("fdiv", 3, "R"), ("cdiv", 2, "R"), ("cdiv", 3, "R"), ("mod", 2, "R"), ("mod", 3, "R"), ("mod", 4, "R"),
+        ("neg", None, None)}
+UNARY_DM8 = tuple(o for o in UNARY_ALL if o in _DM8)
+UNARY_SETS = {"all": UNARY_ALL, "divmod": UNARY_DIVMOD, "dm8": UNARY_DM8, "none": ()}
 
 
-def unary_transitions(a: State, ops=UNARY_ALL):
-    """neg and the python-int operand forms on state a: yields (raw, thunk-args)."""
-    for k, v, side in ops:
+def binary_kinds(x: State, y: State):
+    """expression (op) expression forms that are inside the property's domain, x on the left."""
+    yield "add"
+    yield "sub"
+    if x.const is not None or y.const is not None:
+        yield "mul"
+    if y.const is not None and 1 <= y.const <= 4:
+        yield "fdiv"
+        yield "cdiv"
+        yield "mod"
+
+
+def transitions(a: State, unary, rights, lefts):
+    """Generator-tree edges out of primary state a: (k, x, y, unary-op descriptor | None), a in position x
+    (or y for int-on-the-left forms and for `lefts`)."""
+    for op in unary:
+        k, v, side = op
         if k == "neg":
-            yield ("neg", a.raw), ("neg", a.expr, None), ("neg", a.vec, None), a.expr
+            yield "neg", a, None, op
         elif side == "R":
-            yield (k, a.raw, ("i", v)), (k, a.expr, v), (k, a.vec, [v] * NPTS), a.expr
+            yield k, a, v, op
         else:
-            yield (k, ("i", v), a.raw), (k, v, a.expr), (k, [v] * NPTS, a.vec), a.expr
+            yield k, v, a, op
+    for b in rights:
+        for k in binary_kinds(a, b):
+            yield k, a, b, None
+    for b in lefts:
+        for k in binary_kinds(b, a):
+            yield k, b, a, None
 
 
-def binary_transitions(a: State, b: State):
-    """expression (op) expression forms that are inside the property's domain."""
-    yield ("add", a.raw, b.raw), ("add", a.expr, b.expr), ("add", a.vec, b.vec), a.expr
-    yield ("sub", a.raw, b.raw), ("sub", a.expr, b.expr), ("sub", a.vec, b.vec), a.expr
-    if a.const is not None or b.const is not None:
-        yield ("mul", a.raw, b.raw), ("mul", a.expr, b.expr), ("mul", a.vec, b.vec), (a.expr if b.const is not None else b.expr)
-    if b.const is not None and 1 <= b.const <= 4:
-        for k in ("fdiv", "cdiv", "mod"):
-            yield (k, a.raw, b.raw), (k, a.expr, b.expr), (k, a.vec, b.vec), a.expr
+# globals shared with forked workers: LEVELS[d] = list of States first reached at depth d (d <= 2), INDEX: expr -> State
+_G: dict = {"levels": [], "index": {}, "cfg": {}}
 
 
-def do_transition(st: Stats, tr, depth: int) -> State | None:
-    """Build through the overload, compare with the reference (oracle 1); returns the reached State or None."""
-    raw, (k, x, y), (_, vx, vy), primary = tr
+def _good(xs):
+    return [s for s in xs if not s.bad]
+
+
+def level_cfg(depth: int, a: State, cfg):
+    """(unary ops, right partners, left partners) of primary a when generating level `depth`."""
+    L = _G["levels"]
+    if depth == 1:
+        return UNARY_ALL, _good(L[0]), ()
+    if depth == 2:
+        if a.depth == 1:
+            return UNARY_ALL, _good(L[0]) + _good(L[1]), ()
+        return (), _good(L[1]), ()                 # leaf (op) level-1 state; unary forms on leaves are level 1
+    if depth == 3:
+        small = _small(raw_of(a))
+        un = UNARY_SETS[cfg["l3_unary"]] if (cfg["l3_prims"] == "all" or small) else ()
+        lv = _good(L[0]) if (cfg["l3_leaves"] == "all" or (cfg["l3_leaves"] == "small" and small)) else ()
+        return un, lv, lv
+    raise AssertionError(depth)
+
+
+def primaries(depth: int):
+    L = _G["levels"]
+    if depth == 1:
+        return _good(L[0])
+    if depth == 2:
+        return _good(L[0] + L[1])
+    return _good(L[depth - 1])
+
+
+def register_level(depth: int, cfg) -> list:
+    """Build-only pass in the parent: canonical de-dup (structural equality of the built expression); the first
+    transition (in generator order) that reaches an expression owns the state."""
+    index = _G["index"]
+    new = []
+    for a in primaries(depth):
+        un, rs, ls = level_cfg(depth, a, cfg)
+        for k, x, y, _ in transitions(a, un, rs, ls):
+            try:
+                e = apply_op(k, expr_of(x), expr_of(y))
+            except Exception:  # noqa: BLE001 - classified by the worker that checks this transition
+                continue
+            if e not in index:
+                s = State(k, x, y, e, depth)
+                index[e] = s
+                new.append(s)
+    _G["levels"].append(new)
+    return new
+
+
+def _raw3(k, x, y):
+    return (k, raw_of(x)) if k == "neg" else (k, raw_of(x), raw_of(y))
+
+
+def do_transition(st: Stats, k, x, y, primary: State):
+    """Build through the overload, compare with the reference (oracle 1).
+    Returns None (raised), ("bad", expr) (value differs, reported) or (expr, reference vector)."""
     st.transitions += 1
     st.executions += 1
-    form = op_form(raw)
     try:
-        e = apply_op(k, x, y)
+        e = apply_op(k, expr_of(x), expr_of(y))
     except NotImplementedError:
         st.bump("skipped_build_not_implemented")
         st.outcomes["build:NotImplementedError"] += 1
         return None
     except Exception as ex:  # noqa: BLE001
-        st.violate(f"C26|build|{form}|{shape(primary)}|raises-{type(ex).__name__}",
+        raw = _raw3(k, x, y)
+        st.violate(f"C26|build|{op_form(raw)}|{shape(primary.expr)}|raises-{type(ex).__name__}",
                    f"{pretty(raw)} raised {type(ex).__name__}",
                    {"check": "build", "tree": tolist(raw), "pretty": pretty(raw), "error": str(ex)[:200]})
         return None
-    ref = ref_vec_op(k, vx, vy)
+    ref = ref_vec_op(k, vec_of(x), vec_of(y))
     got = lib_vec(st, e)
     st.evaluations += NPTS
     if got != ref:
+        raw = _raw3(k, x, y)
         kind = "value-differs" if got is not None else "result-uses-unknown-variable"
-        st.violate(f"C26|build|{form}|{shape(primary)}|{kind}",
+        st.violate(f"C26|build|{op_form(raw)}|{shape(primary.expr)}|{kind}",
                    f"{pretty(raw)} builds {e}, whose value differs from the expression tree that was written",
                    {"check": "build", "tree": tolist(raw), "pretty": pretty(raw), "built": str(e),
                     **(first_diff(ref, got) if got is not None else {})})
-        return None                       # innermost failure only: a wrong result is not used as an operand
-    st.outcomes[f"build:{form}:{shape(primary)}->{shape(e)}"] += 1
-    return State(raw, e, ref, depth)
+        return ("bad", e)
+    st.outcomes[f"build:{k}:{shape(primary.expr)}->{shape(e)}"] += 1
+    return (e, ref)
 
 
-class Level:
-    """Collector for the new states of one shard: de-dup, state checks, hashes for the global count."""
+class Checker:
+    """State checks (simplify, print-parse) of the states owned by one shard."""
 
-    def __init__(self, st: Stats, known, sizes, seed: int):
-        self.st = st
-        self.known = known            # set of library exprs expanded elsewhere (lower levels)
-        self.seen: set = set()
-        self.hashes = array("q")
-        self.nt_hashes = array("q")
+    def __init__(self, st: Stats, sizes, seed: int):
+        self.st, self.sizes, self.seed = st, sizes, seed
         self.batch: list = []
-        self.sizes = sizes
-        self.seed = seed
         self.n = 0
 
-    def add(self, s: State) -> bool:
-        e = s.expr
-        if e in self.known or e in self.seen:
-            self.st.bump("duplicate_states_merged")
-            return False
-        self.seen.add(e)
-        h = hash(e)
-        self.hashes.append(h)
-        v0 = s.vec[0]
-        if any(v != v0 for v in s.vec):
-            self.nt_hashes.append(h)
-        self.st.max_depth = max(self.st.max_depth, s.depth)
-        check_simplify(self.st, s.raw, e, s.vec, self.sizes)
-        self.batch.append((s.raw, e, s.vec))
+    def state(self, raw_thunk, e, ref, depth: int) -> bool:
+        """Runs the per-state checks; returns True iff the state is non-trivial (value not constant on the box)."""
+        st = self.st
+        st.max_depth = max(st.max_depth, depth)
+        if self.sizes and _simplify_bad(st, e, ref, self.sizes) is not None:
+            check_simplify(st, raw_thunk(), e, ref, self.sizes)
+        self.batch.append((raw_thunk, e, ref))
         if len(self.batch) >= 24:
             self.flush()
         self.n += 1
         if (self.n + 131 * self.seed) % 1777 == 0:
-            self.st.sample({"tree": pretty(s.raw), "built": str(e), "value_at_(1,2,3)": s.vec[(1 + 4) * 81 + (2 + 4) * 9 + 3 + 4]})
-        return True
+            st.sample({"tree": pretty(raw_thunk()), "built": str(e), "value_at_(1,2,3)": ref[(1 + 4) * 81 + (2 + 4) * 9 + 3 + 4]})
+        v0 = ref[0]
+        return any(v != v0 for v in ref)
 
     def flush(self):
         check_print_parse(self.st, self.batch)
         self.batch = []
 
 
-# globals shared with forked workers
-_G: dict = {}
-
-
-def make_levels01(st: Stats, sizes, seed: int):
-    """Level 0 (leaves) and level 1 (every operator over leaves), in the parent."""
-    lv = Level(st, set(), sizes, seed)
-    s0 = []
-    for t in LEAVES:
-        s = State(t, build_leaf(t), ref_vec_leaf(t), 0)
-        got = lib_vec(st, s.expr)
-        st.executions += 1
-        st.evaluations += NPTS
-        if got != s.vec:
-            st.violate(f"C26|build|leaf|{shape(s.expr)}|value-differs", f"leaf {pretty(t)} evaluates wrongly",
-                       {"check": "build", "tree": tolist(t), "pretty": pretty(t)})
-            continue
-        if lv.add(s):
-            s0.append(s)
-    s1 = []
-    for a in s0:
-        for tr in unary_transitions(a):
-            s = do_transition(st, tr, 1)
-            if s is not None and lv.add(s):
-                s1.append(s)
-        for b in s0:
-            for tr in binary_transitions(a, b):
-                s = do_transition(st, tr, 1)
-                if s is not None and lv.add(s):
-                    s1.append(s)
-    lv.flush()
-    # harness self-check: the vector reference and the scalar reference agree on every level <= 1 state
-    for s in s0 + s1:
-        assert s.vec == [ref_eval(s.raw, (p[0], p[1]), (p[2],)) for p in PTS], s.raw
-    return s0, s1, lv
-
-
-def l3_ops(mode: str):
-    if mode == "none":
-        return ()
-    if mode == "full":
-        return UNARY_ALL
-    # "lite": one representative constant per operator form
-    keep = {("neg", None, None), ("add", -1, "R"), ("add", 2, "L"), ("sub", 3, "R"), ("mul", -2, "R"), ("mul", 3, "L"),
-            ("mul", 0, "R"), ("fdiv", 2, "R"), ("fdiv", 3, "R"), ("cdiv", 2, "R"), ("cdiv", 4, "R"), ("mod", 2, "R"),
-            ("mod", 4, "R"), ("mod", 3, "R"), ("fdiv", 4, "R"), ("cdiv", 3, "R")}
-    return tuple(o for o in UNARY_ALL if o in keep)
-
-
-def _shard_l2(task):
-    """All level-2 transitions whose LEFT/primary operand is state #ai (+ restricted level 3 on each new state)."""
-    ai, l3mode, l3filter, seed = task
+def _shard_level(task):
+    """Levels 1 and 2 (globally registered): all transitions out of primaries[lo:hi]; the state checks are run by the
+    shard whose transition owns the state."""
+    depth, lo, hi, seed = task
+    cfg = _G["cfg"]
+    index = _G["index"]
     st = Stats()
-    S0, S1, known, sizes = _G["s0"], _G["s1"], _G["known"], _G["sizes"]
-    S01 = S0 + S1
-    a = S01[ai]
-    lv2 = Level(st, known, sizes, seed)
-    lv3 = Level(st, known, sizes, seed)
-    ops3 = l3_ops(l3mode)
+    ck = Checker(st, cfg["sizes"], seed)
+    tainted = []
+    for a in primaries(depth)[lo:hi]:
+        un, rs, ls = level_cfg(depth, a, cfg)
+        for k, x, y, _ in transitions(a, un, rs, ls):
+            r = do_transition(st, k, x, y, a)
+            if r is None:
+                continue
+            owner = index.get(r[1] if r[0] == "bad" else r[0])
+            owned = owner is not None and owner.k == k and _same(owner.a, x) and _same(owner.b, y)
+            if r[0] == "bad":
+                if owned:
+                    tainted.append(_path(owner))
+                continue
+            if not owned:
+                st.bump("duplicate_states_merged")
+                continue
+            e, ref = r
+            if ck.state(lambda o=owner: raw_of(o), e, ref, depth):
+                st.nontrivial += 1
+    ck.flush()
+    return st, tainted
 
-    def expand3(s2: State):
-        if not ops3:
-            return
-        if l3filter == "small" and not _small(s2.raw):
-            return
-        for tr in unary_transitions(s2, ops3):
-            s3 = do_transition(st, tr, 3)
-            if s3 is not None and s3.expr not in lv2.seen:
-                lv3.add(s3)
 
-    def reach(tr):
-        s = do_transition(st, tr, 2)
-        if s is not None and lv2.add(s):
-            expand3(s)
+def _shard_deep(task):
+    """Levels 3 and 4 (not registered): transitions out of the level-2 states [lo:hi]; shard-local de-dup of the
+    reached expressions (plus the global index of levels <= 2); string hashes are returned for the global count."""
+    lo, hi, seed = task
+    cfg = _G["cfg"]
+    index = _G["index"]
+    st = Stats()
+    ck = Checker(st, cfg["sizes"], seed)
+    un4 = UNARY_SETS[cfg["l4_unary"]]
+    seen: set = set()
+    hs = {3: array("q"), 4: array("q")}
+    nts = {3: array("q"), 4: array("q")}
 
-    if a.depth == 1:
-        for tr in unary_transitions(a):
-            reach(tr)
-        others = S01
-    else:
-        others = S1
-    for b in others:
-        for tr in binary_transitions(a, b):
-            reach(tr)
-    lv2.flush()
-    lv3.flush()
-    return st, lv2.hashes, lv2.nt_hashes, lv3.hashes, lv3.nt_hashes
+    def visit(k, x, y, prim, depth):
+        """one transition; returns the new State if it reached an expression not seen before."""
+        r = do_transition(st, k, x, y, prim)
+        if r is None or r[0] == "bad":
+            return None
+        e, ref = r
+        if e in index or e in seen:
+            st.bump("duplicate_states_merged")
+            return None
+        seen.add(e)
+        h = hash(str(e))
+        hs[depth].append(h)
+        if ck.state(lambda: _raw3(k, x, y), e, ref, depth):
+            nts[depth].append(h)
+        s = State(k, x, y, e, depth)
+        s.vec = ref
+        return s
+
+    for a in primaries(3)[lo:hi]:
+        un, rs, ls = level_cfg(3, a, cfg)
+        small = bool(un4) and _small(raw_of(a))
+        for k, x, y, op in transitions(a, un, rs, ls):
+            s3 = visit(k, x, y, a, 3)
+            if s3 is not None and small and op in _DIVMOD:
+                for k4, x4, y4, _ in transitions(s3, un4, (), ()):
+                    visit(k4, x4, y4, s3, 4)
+        a.vec = None
+    ck.flush()
+    return st, hs[3], nts[3], hs[4], nts[4]
+
+
+def _same(p, q) -> bool:
+    if isinstance(p, int) or isinstance(q, int) or p is None or q is None:
+        return type(p) is type(q) and p == q
+    return p is q
+
+
+def _path(s: State):
+    """Position of a state in LEVELS (picklable handle)."""
+    return (s.depth, _G["levels"][s.depth].index(s))
 
 
 def _small(raw) -> bool:
-    """Restriction used for quick level 3: every constant / int in the tree is in {-1, 2, 3} (divisors {2, 3})."""
+    """Restriction for the deepest levels: every constant / int operand of the tree is in {-1, 2, 3}."""
     k = raw[0]
     if k in ("d", "s"):
         return True
@@ -625,9 +723,6 @@ def k_set():
         ("fdiv", d1, ("i", 2)), ("cdiv", d0, ("i", 3)), ("mod", s0, ("i", 2)),
         ("mul", ("add", d0, s0), ("c", 3)), ("add", ("mod", d1, ("i", 3)), ("c", -2)),
     ]
-
-
-BOX4 = None
 
 
 def _points(nd: int, ns: int, mask: int):
@@ -676,14 +771,34 @@ def _needs(raw) -> tuple[bool, bool, bool]:
     return bool(m & 1), bool(m & 2), bool(m & 4)
 
 
+_SOUND: dict = {}
+
+
+def sound(st: Stats, raw) -> bool:
+    """Precondition of the composition checks: the operand itself is built correctly (oracle 1, innermost failure is
+    reported with its build signature); composition with a wrongly built operand is skipped and counted."""
+    ok = _SOUND.get(raw)
+    if ok is None:
+        tmp = Stats()
+        ok = _SOUND[raw] = _rebuild(tmp, raw) is not None
+        for sig, v in tmp.violations.items():
+            st.violate(sig, v["what"], v["witness"])
+    if not ok:
+        st.bump("compose_skipped_operand_built_wrongly")
+    return ok
+
+
 def check_expr_compose(st: Stats, subj_raw, K, Kexpr, Kvars) -> None:
     """AffineExpr.compose(map) and AffineExpr.replace_dims_and_symbols for one subject and every replacement
     tuple from K that differs on a variable occurring in the subject."""
     from xdsl.ir.affine import AffineMap
 
+    if not sound(st, subj_raw):
+        return
     e = build(subj_raw)
     u0, u1, us = _needs(subj_raw)
     nK = len(K)
+    Kok = [sound(Stats(), r) for r in K]
     r0s = range(nK) if u0 else (0,)
     r1s = range(nK) if u1 else (1,)
     # --- expr.compose(map): documented for maps with at least as many results as dims used; symbols are kept
@@ -693,6 +808,8 @@ def check_expr_compose(st: Stats, subj_raw, K, Kexpr, Kvars) -> None:
         for i0 in r0s:
             for i1 in (r1s if nres == 2 else (None,)):
                 idx = [i0] if nres == 1 else [i0, i1]
+                if not all(Kok[i] for i in idx):
+                    continue
                 m = AffineMap(2, 1, tuple(Kexpr[i] for i in idx))
                 wit = {"check": "compose", "api": "AffineExpr.compose", "subject": tolist(subj_raw), "pretty": pretty(subj_raw),
                        "map_results": [tolist(K[i]) for i in idx], "map": str(m)}
@@ -718,6 +835,8 @@ def check_expr_compose(st: Stats, subj_raw, K, Kexpr, Kvars) -> None:
     for i0 in r0s:
         for i1 in r1s:
             for i2 in rss:
+                if not (Kok[i0] and Kok[i1] and Kok[i2]):
+                    continue
                 wit = {"check": "compose", "api": "AffineExpr.replace_dims_and_symbols", "subject": tolist(subj_raw),
                        "pretty": pretty(subj_raw), "new_dims": [tolist(K[i0]), tolist(K[i1])], "new_symbols": [tolist(K[i2])]}
                 st.executions += 1
@@ -741,6 +860,8 @@ def check_map_compose(st: Stats, subj_raws, other_raws) -> None:
     Result: (d0, d1)[s0 (self's), s1 (other's s0)]."""
     from xdsl.ir.affine import AffineMap
 
+    if not all([sound(st, r) for r in list(subj_raws) + list(other_raws)]):
+        return
     nres = len(other_raws)
     self_map = AffineMap(nres, 1, tuple(build(r) for r in subj_raws))
     other = AffineMap(2, 1, tuple(build(r) for r in other_raws))
@@ -784,6 +905,8 @@ def check_map_replace(st: Stats, subj_raws, nd_raws, ns_raw) -> None:
     """AffineMap.replace_dims_and_symbols(new_dims, new_symbols, 2, 1)."""
     from xdsl.ir.affine import AffineMap
 
+    if not all([sound(st, r) for r in list(subj_raws) + list(nd_raws) + [ns_raw]]):
+        return
     m = AffineMap(2, 1, tuple(build(r) for r in subj_raws))
     wit = {"check": "compose", "api": "AffineMap.replace_dims_and_symbols", "self_results": [tolist(r) for r in subj_raws],
            "new_dims": [tolist(r) for r in nd_raws], "new_symbols": [tolist(ns_raw)]}
@@ -810,6 +933,8 @@ def check_inverse_permutation(st: Stats, res_raws) -> None:
     """m = (d0, d1) -> res ; if m.inverse_permutation() is a map, it composed with m is the identity."""
     from xdsl.ir.affine import AffineMap
 
+    if not all([sound(st, r) for r in res_raws]):
+        return
     m = AffineMap(2, 0, tuple(build(r) for r in res_raws))
     wit = {"check": "inverse_permutation", "results": [tolist(r) for r in res_raws], "map": str(m)}
     st.executions += 1
@@ -877,45 +1002,97 @@ def _count_distinct(arrs) -> int:
     return sum(len(set(b)) for b in buckets)
 
 
+def _dbg(msg: str) -> None:
+    if os.environ.get("C26_DEBUG"):
+        print(f"[c26 {time.strftime('%H:%M:%S')}] {msg}", file=sys.stderr, flush=True)
+
+
+def tier_cfg(quick: bool):
+    if quick:
+        return {"sizes": SIMPLIFY_SIZES, "l3_unary": "divmod", "l3_prims": "small", "l3_leaves": "none", "l4_unary": "none"}
+    return {"sizes": SIMPLIFY_SIZES, "l3_unary": "all", "l3_prims": "all", "l3_leaves": "small", "l4_unary": "dm8"}
+
+
+def generate(ctx, cfg) -> dict:
+    """Levels 0..2: registration in the parent (global canonical de-dup), checks in workers; levels 3..4 in workers."""
+    _G["levels"] = []
+    _G["index"] = {}
+    _G["cfg"] = cfg
+    _VCACHE.clear()
+    st = Stats()
+    ck = Checker(st, cfg["sizes"], ctx.seed)
+    lvl0 = []
+    for t in LEAVES:
+        s = State(t[0], t[1], None, build_leaf(t), 0)
+        ref = vec_of(s)
+        got = lib_vec(st, s.expr)
+        st.executions += 1
+        st.evaluations += NPTS
+        if got != ref:
+            st.violate(f"C26|build|leaf|{shape(s.expr)}|value-differs", f"leaf {pretty(t)} evaluates wrongly",
+                       {"check": "build", "tree": tolist(t), "pretty": pretty(t)})
+            s.bad = True
+        if s.expr not in _G["index"]:
+            _G["index"][s.expr] = s
+            lvl0.append(s)
+            if not s.bad and ck.state(lambda t=t: t, s.expr, ref, 0):
+                st.nontrivial += 1
+    ck.flush()
+    _G["levels"].append(lvl0)
+    ctx.merge(st)
+    for depth in (1, 2):
+        register_level(depth, cfg)
+        gc.collect()
+        gc.freeze()                     # forked workers must not copy the parent's heap when their GC runs
+        n = len(primaries(depth))
+        tasks = [(depth, lo, lo + 1, ctx.seed) for lo in range(n)]
+        for _, (wst, tainted) in pmap(_shard_level, tasks):
+            ctx.merge(wst)
+            for d, i in tainted:
+                _G["levels"][d][i].bad = True
+        _dbg(f"level {depth}: {len(_G['levels'][depth])} states")
+    n = len(primaries(3))
+    chunk = 16
+    hashes = {"h3": [], "nt3": [], "h4": [], "nt4": []}
+    for _, (wst, h3, nt3, h4, nt4) in pmap(_shard_deep, [(lo, min(n, lo + chunk), ctx.seed) for lo in range(0, n, chunk)]):
+        ctx.merge(wst)
+        for key, arr in (("h3", h3), ("nt3", nt3), ("h4", h4), ("nt4", nt4)):
+            if len(arr):
+                hashes[key].append(arr)
+    return hashes
+
+
 def run(ctx):
     quick = ctx.quick
-    sizes = SIMPLIFY_SIZES
-    st = Stats()
-    s0, s1, lv01 = make_levels01(st, sizes, ctx.seed)
-    ctx.merge(st)
-    known = {s.expr for s in s0 + s1}
-    _G.update(s0=s0, s1=s1, known=known, sizes=sizes)
-    n01 = len(s0) + len(s1)
-
-    l3mode, l3filter = ("lite", "small") if quick else ("full", "all")
-    tasks = [(ai, l3mode, l3filter, ctx.seed) for ai in range(n01)]
-    h_all = [lv01.hashes]
-    h_nt = [lv01.nt_hashes]
-    n2 = n3 = 0
-    for _, (wst, h2, nt2, h3, nt3) in pmap(_shard_l2, tasks):
-        ctx.merge(wst)
-        h_all += [h2, h3]
-        h_nt += [nt2, nt3]
-        n2 += len(h2)
-        n3 += len(h3)
+    cfg = tier_cfg(quick)
+    hashes = generate(ctx, cfg)
+    _dbg("generator tree done")
+    levels = _G["levels"]
+    n_reg = sum(len(l) for l in levels)
+    n34 = _count_distinct(hashes["h3"] + hashes["h4"])
+    ctx.stats.states = n_reg + n34
+    ctx.stats.nontrivial += _count_distinct(hashes["nt3"] + hashes["nt4"])
+    for d, l in enumerate(levels):
+        ctx.stats.bump(f"level{d}_states", len(l))
+    ctx.stats.bump("level3_states", _count_distinct(hashes["h3"]))
+    ctx.stats.bump("level4_states_not_in_level3", n34 - _count_distinct(hashes["h3"]))
+    ctx.stats.bump("tainted_states_not_expanded", sum(1 for l in levels for s in l if s.bad))
 
     # ---- composition
     K = k_set()
-    subj = [s.raw for s in s0 + s1]
+    subj = [raw_of(s) for s in levels[0] + levels[1] if not s.bad]
     if not quick:
         # level-2 subjects built from K itself (they use both dims and the symbol frequently)
-        extra = []
         for a in K:
             for b in K:
-                extra.append(("add", a, b))
-                extra.append(("sub", a, b))
+                subj.append(("add", a, b))
+                subj.append(("sub", a, b))
             for k in ("fdiv", "cdiv", "mod"):
                 for v in (2, 3):
-                    extra.append((k, a, ("i", v)))
-            extra.append(("mul", a, ("i", -2)))
-            extra.append(("neg", a))
-        subj += extra
-    ctasks = [("expr", subj[i:i + 8]) for i in range(0, len(subj), 8)]
+                    subj.append((k, a, ("i", v)))
+            subj.append(("mul", a, ("i", -2)))
+            subj.append(("neg", a))
+    ctasks = [("expr", subj[i:i + 4]) for i in range(0, len(subj), 4)]
     maps1 = [(a,) for a in K]
     maps2 = [(a, b) for a in K for b in K]
     msub = [(r,) for r in K] + [(a, b) for a in K[6:10] for b in K[10:14]]
@@ -932,74 +1109,76 @@ def run(ctx):
     ctasks.append(("invperm", inv))
     for _, wst in pmap(_shard_compose, ctasks):
         ctx.merge(wst)
+    _dbg("composition done")
 
-    ctx.stats.states = _count_distinct(h_all)
-    ctx.stats.nontrivial = _count_distinct(h_nt)
-    ctx.stats.bump("level0_states", len(s0))
-    ctx.stats.bump("level1_states", len(s1))
-    ctx.stats.bump("level2_states_per_shard_sum", n2)
-    ctx.stats.bump("level3_states_per_shard_sum", n3)
     ctx.bounds = {
         "leaves": [pretty(t) for t in LEAVES], "int_operands": list(INTS), "divisors": list(DIVS),
         "box": f"[{LO},{HI}]^3 = {NPTS} points",
         "depth_full": 2,
-        "depth3": ("unary/int-operand operators " + ("(one or two constants per operator form) on depth-2 trees whose constants are in {-1,2,3}"
-                   if quick else "(all int operands -2..3, divisors 1..4) on every depth-2 tree")),
-        "simplify_sizes": [list(x) for x in sizes],
+        "depth3": {"int_operand_forms": [f"{k}:{v}:{side}" for k, v, side in UNARY_SETS[cfg["l3_unary"]]],
+                   "on": "all depth-2 states" if cfg["l3_prims"] == "all" else "depth-2 states whose constants / int operands are all in {-1,2,3}",
+                   "binary_with_a_leaf_on_either_side": {"none": "no", "small": "on depth-2 states whose constants are in {-1,2,3}",
+                                                         "all": "all"}[cfg["l3_leaves"]]},
+        "depth4": {"int_operand_forms": [f"{k}:{v}:{side}" for k, v, side in UNARY_SETS[cfg["l4_unary"]]],
+                   "on": "depth-3 states reached by " + ",".join(f"{k}:{v}" for k, v, _ in UNARY_DIVMOD) + " from depth-2 states with constants in {-1,2,3}"},
+        "simplify_sizes": [list(x) for x in cfg["sizes"]],
         "compose_subjects": len(subj), "replacement_set": [pretty(t) for t in K],
         "map_compose_pairs": len(msub) * len(others), "inverse_permutation_maps": len(inv),
     }
     ctx.rule = ("generator tree: level 0 = leaves, level k+1 = every in-domain operator overload applied to a level-k state and a "
-                "state of level <= k (full for k+1 <= 2; level 3 = neg / python-int operand forms on level-2 states); "
-                "states = distinct built library expressions (structural equality), transitions = overload applications + "
-                "compose/replace calls; every transition is compared with the reference on all 729 points, every new state "
-                "is simplified (2 sizes) and printed/re-parsed; non-trivial = distinct built expression whose reference value "
-                "is not constant over the box")
+                "state of level <= k (complete for k+1 <= 2; level 3 / 4 = neg and python-int operand forms, in thorough also "
+                "(op) leaf on either side, see bounds); states = distinct built library expressions (structural equality, first "
+                "reaching tree owns the state), transitions = overload applications + compose/replace calls; every transition is "
+                "compared with the reference on all 729 points, every state is simplified (2 sizes) and printed/re-parsed; "
+                "non-trivial = distinct built expression whose reference value is not constant over the box")
     ctx.assumptions = [
         "reference evaluator ref_eval/ref_vec_op in props/c26.py (Python // and % for positive divisors, ceildiv = -((-a)//b))",
         "AffineExpr.eval is the observation function; it is called on the box projected on the variables occurring in the "
         "expression and the value is reused for points differing only in non-occurring variables",
         "python-int divisors/multipliers and constant-expression operands are both exercised; int - expr is out of scope",
-        "a transition whose built value is wrong is reported and not expanded further (innermost failure only)",
+        "a transition whose built value is wrong is reported and the state it owns is not expanded (innermost failure only)",
     ]
 
 
 # ----------------------------------------------------------------------------- replay
+def _rebuild(st: Stats, t):
+    """Bottom-up rebuild of a witness tree through do_transition; returns a State / int, or None after a failure."""
+    k = t[0]
+    if k == "i":
+        return t[1]
+    if k in ("d", "s", "c"):
+        return State(k, t[1], None, build_leaf(t), 0)
+    kids = [_rebuild(st, c) for c in t[1:]]
+    if any(c is None for c in kids):
+        return None
+    x, y = kids[0], (kids[1] if len(kids) > 1 else None)
+    # the generator's primary operand: the left one, except int-on-the-left forms and leaf (op) depth>=2 state
+    prim = x
+    if not isinstance(x, State) or (isinstance(y, State) and x.depth == 0 and y.depth >= 2):
+        prim = y
+    r = do_transition(st, k, x, y, prim)
+    if r is None or r[0] == "bad":
+        return None
+    s = State(k, x, y, r[0], raw_depth(t))
+    s.vec = r[1]
+    return s
+
+
 def replay(rep) -> bool:
     w = rep["witness"]
     st = Stats()
     chk = w.get("check")
     if chk in ("build", "simplify", "print-parse"):
         raw = totuple(w["tree"])
-        # rebuild bottom-up through do_transition so that the same comparisons are made
-        def go(t, top):
-            k = t[0]
-            if k in ("d", "s", "c"):
-                return State(t, build_leaf(t), ref_vec_leaf(t), 0)
-            kids = []
-            for c in t[1:]:
-                if c[0] == "i":
-                    kids.append(None)
-                else:
-                    s = go(c, False)
-                    if s is None:
-                        return None
-                    kids.append(s)
-            if k == "neg":
-                a = kids[0]
-                tr = (t, ("neg", a.expr, None), ("neg", a.vec, None), a.expr)
-            else:
-                xs = [(c[1], [c[1]] * NPTS) if s is None else (s.expr, s.vec) for c, s in zip(t[1:], kids)]
-                prim = kids[0].expr if kids[0] is not None else kids[1].expr
-                if k == "mul" and kids[0] is not None and kids[1] is not None and kids[1].const is None:
-                    prim = kids[1].expr
-                tr = (t, (k, xs[0][0], xs[1][0]), (k, xs[0][1], xs[1][1]), prim)
-            return do_transition(st, tr, raw_depth(t))
-        s = go(raw, True)
-        if s is not None and chk == "simplify":
-            check_simplify(st, s.raw, s.expr, s.vec)
-        if s is not None and chk == "print-parse":
-            check_print_parse(st, [(s.raw, s.expr, s.vec)])
+        s = _rebuild(st, raw)
+        if isinstance(s, State):
+            ref = vec_of(s)
+            if s.depth == 0 and lib_vec(st, s.expr) != ref:
+                st.violate(rep["signature"], "leaf", {})
+            if chk == "simplify":
+                check_simplify(st, raw, s.expr, ref)
+            if chk == "print-parse":
+                check_print_parse(st, [(lambda: raw, s.expr, ref)])
     elif chk == "compose":
         api = w["api"]
         K = k_set()
